@@ -46,6 +46,27 @@ CHECKS = {
  "C19": ("exploration", "bounded-exhaustive enumeration of aeon networks through the converter binary with an independent truth-table oracle",
    "Every network of a converter grammar (1..3 variables, implicit functions, shared uninterpreted symbols of arity 0..3 (every argument list with repetitions), explicit expressions, constrained/unconstrained regulations, name-clash sub-family) is run through the convert-aeon-to-bnet binary; for every target the set of truth tables under all valuations of the fresh inputs must equal the set of all instantiations of the input function. Also the operator-shape sub-family (all ordered pairs of binary operators nested to the right / left with negations, chains of 4..33 operands).", "§3 C19"),
 }
+
+# additions of rounds 12-13 (appended to the description of the check)
+ADDENDA = {
+ "C01": " Also: two-step histories (look-alike graphs - same encoding with other update functions, unit variants of one network - evaluated one after the other on one fresh OS thread, probes against the oracle) and graphs with per-variable spare counts.",
+ "C02": " Also: two-step histories with domain-restricted quantifiers (two label families).",
+ "C04": " Also: caches that outlive a call - two-step histories over look-alike graphs, plain and extended probes against the oracle.",
+ "C07": " Also: a family of contexts that know each other's variable names, gone through twice on one thread.",
+ "C08": " Also: state-variable names spelled like constants, the keyword `in` and operators.",
+ "C09": " Also: 10^6 (thorough 5*10^6) same-shape sub-formulae canonised in sequence on one thread, each against its closed form.",
+ "C10": " Also: one public evaluation context re-used for successive substitutions (label in proposition and in domain position).",
+ "C11": " Also: compositionality - for every ordered pair (A, B) of 20 operator applications over the same arguments `A & B` must be the intersection of A and B evaluated on their own (and the batch [A, B] must return both).",
+ "C12": " Also: two-step histories with the two patterns and their twins.",
+ "C13": " Also: shift registers with 58..70 variables (> 2^53 states): EW / AW on two / three consecutive chain states against the defining equivalences and closed forms (child processes).",
+ "C14": " Also: one context label in both roles across the formulae of a batch; names of the graph's spare variables as propositions.",
+ "C15": " Also: graphs with per-variable spare counts; a sanitised result must be a proper set of the canonical context (colors(), vertices(), cardinalities, pick_singleton()).",
+ "C16": " Also: the result archive written to the path of the context archive; analyse_formula with a context archive that must stay untouched. Thorough: all core / unusual networks with <= 64 colours, k up to 6, path histories for every format.",
+ "C17": " Also: -o naming the -e file. Thorough: every closed plain formula with <= 5 nodes and every closed extended formula with <= 3 nodes through the tool in files of 7 lines (about 90 000 executions).",
+ "C18": " Also: graphs whose unit set was restricted after construction (every second colour, single colours).",
+ "C19": " The joint family over all targets (one interpretation per shared symbol) is recorded as an observation only - the property is stated per variable.",
+ "C20": " Also: networks with several function symbols in non-alphabetical first-use order, spare-variable-like names and non-lexicographic declaration order.",
+}
 NOT_YET = {
 }
 TRUST = "Trusted: rustc/cargo, biodivine-lib-bdd (eval_in, support_set, BDD equality), biodivine-lib-param-bn's model parsers; the harness's own oracle / reference front end (written from the property text, self-checked by dualities and fixed-point laws). Bounds are stated in each evidence file; beyond them nothing is claimed."
@@ -65,7 +86,7 @@ def main():
                 "evidence_file": f"/verif/evidence/{pid}.json",
                 "replay_cmd_template": f"./check {pid} --replay {{path}}",
                 "engine": "harness",
-                "level_claimed": {"category": lvl, "text": text, "design_ref": ref},
+                "level_claimed": {"category": lvl, "text": text + ADDENDA.get(pid, ""), "design_ref": ref},
                 "level_note": TRUST,
                 "technique": tech,
             })
